@@ -84,6 +84,13 @@ func candidates(c *Case, v *Violation) []func() *Case {
 			return &nc
 		})
 	}
+	if len(c.Pollute) > 0 {
+		out = append(out, func() *Case {
+			nc := *c
+			nc.Pollute = nil
+			return &nc
+		})
+	}
 	if c.Recipe != nil {
 		r := c.Recipe
 		// drop ops after the failing one
@@ -276,6 +283,9 @@ func caseSize(c *Case) int {
 	for _, e := range c.Execs {
 		n += 2 + len(e.Perms)
 	}
+	for _, p := range c.Pollute {
+		n += 20 + len(allNodes(p))
+	}
 	if c.Conc != nil {
 		n += c.Conc.size()
 	}
@@ -322,7 +332,16 @@ func minimise(prop Property, c *Case, v *Violation, budget int) (*Case, *Violati
 				continue
 			}
 			spent++
-			nv, ri := runCheck(prop, cand)
+			var nv *Violation
+			var ri *RunInfo
+			func() {
+				defer func() {
+					if recover() != nil {
+						nv = nil // a candidate the check cannot even execute is not a smaller failing case
+					}
+				}()
+				nv, ri = runCheck(prop, cand)
+			}()
 			if nv != nil && nv.Rule == curV.Rule {
 				cur, curV = freezeKeep(cand, ri), nv
 				steps++
